@@ -758,6 +758,10 @@ def units(tier):
     for n in ((4, 10, 13) if tier == "quick" else (2, 4, 7, 10, 13, 14)):
         us.append(Unit("B.section_differential[UnpackInfo,2 folders + %d bytes]" % n, M, "section_differential",
                        dict(section="UnpackInfo", nbytes=n, prefix=UPRE), 3000))
+    # one folder whose single coder is "complex" (own in/out stream counts, bind pairs, packed stream list): all of that free
+    for n in ((7,) if tier == "quick" else (7, 9)):
+        us.append(Unit("B.section_differential[UnpackInfo,complex coder + %d bytes]" % n, M, "section_differential",
+                       dict(section="UnpackInfo", nbytes=n, prefix="0b01000111"), 3000))
     # FilesInfo: two files, one property id fixed, its size and content (and what follows) free
     for pre, ns in (("020e", (3, 4)), ("020e01c00f", (3, 4)), ("0214", (5, 6)), ("0215", (5,) if tier == "quick" else (5, 6)),
                     ("0218", (5, 6)), ("0219", (3, 4)), ("02", (3,))):
